@@ -690,12 +690,58 @@ Definition rename (c : cfg) (s : state) (e : nat) (nk : option key) : res :=
   end
   end.
 
+(* list.index(x) *)
+Fixpoint index_of (e : nat) (l : list nat) : option nat :=
+  match l with
+  | [] => None
+  | y :: r => if Nat.eqb e y then Some 0 else option_map S (index_of e r)
+  end.
+(* set_.index(self) if isinstance(set_, OrderedNamespaceSet) else None *)
+Definition pos_in (s : state) (i e : nat) : option nat :=
+  match order_of s i with Some o => index_of e o | None => None end.
+(* set_.insert(position, self) / set_.add(self) *)
+Definition readd (c : cfg) (s : state) (i : nat) (pos : option nat) (e : nat) : res :=
+  match pos with
+  | Some p => set_insert c s i (Z.of_nat p) e
+  | None => set_add c s i e
+  end.
+Fixpoint put_back_at (c : cfg) (s : state) (e : nat) (l : list (nat * option nat)) : res :=
+  match l with
+  | [] => (s, Ok)
+  | (i, p) :: r => bind (readd c s i p e) (fun s1 => put_back_at c s1 e r)
+  end.
+(* the except branch: re-add wherever the object is missing *)
+Fixpoint restore_at (c : cfg) (s : state) (e : nat) (l : list (nat * option nat)) : res :=
+  match l with
+  | [] => (s, Ok)
+  | (i, p) :: r =>
+      if contains c s i e then restore_at c s e r
+      else bind (readd c s i p e) (fun s1 => restore_at c s1 e r)
+  end.
+
 (* element.semantic_id = m  (elements of the pools carry no supplemental_semantic_id, so the
-   AASd-118 test never fires; no set is keyed by semantic_id, so no collision test fires) *)
+   AASd-118 test never fires; no set is keyed by semantic_id, so no collision test fires).
+   The element is discarded from the sets that contain it and re-added - at its old position in an
+   ordered set -, so that the add hook of a SubmodelElementList sees the new semantic id; if it is
+   refused, the old semantic id and position are restored and the exception is re-raised. *)
 Definition set_semantic_id (c : cfg) (s : state) (e : nat) (m : option nat) : res :=
   match e_parent (elems s e) with
   | None => (set_sem s e m, Ok)
-  | Some o => rekey c s e o (fun s' => set_sem s' e m)
+  | Some o =>
+      match take_out c s e (owner_sets s o) [] with
+      | (s1, _, Err x) => (s1, Err x)
+      | (s1, lst, _) =>
+          let lp := map (fun i => (i, pos_in s i e)) lst in
+          let old := e_sem (elems s e) in
+          match put_back_at c (set_sem s1 e m) e lp with
+          | (s2, Err x) =>
+              match restore_at c (set_sem s2 e old) e lp with
+              | (s3, Err y) => (s3, Err y)
+              | (s3, _) => (s3, Err x)
+              end
+          | (s2, _) => (set_sem s2 e m, Ok)
+          end
+      end
   end.
 
 (* ---- Namespace._add_object / _remove_object ----------------------------- *)
